@@ -404,7 +404,7 @@ impl Sim {
 }
 
 /// The `Backend` the hannibal hook talks to.
-pub struct SimBackend(pub Rc<Sim>);
+pub struct SimBackend(pub Rc<Sim>, pub bool);
 
 impl Backend for SimBackend {
     fn spawn(&self, fut: BoxFut) {
@@ -414,6 +414,10 @@ impl Backend for SimBackend {
 
     fn sleep(&self, d: Duration) -> BoxFut {
         Box::pin(self.0.sleep_ticks(d.as_millis() as u64))
+    }
+
+    fn preemption_points(&self) -> bool {
+        self.1
     }
 }
 
